@@ -65,7 +65,9 @@ Definition c06_sfin (s : c06_S) : bool := match s_left s with [] => true | _ => 
 
 (* receive side *)
 Inductive c06_R :=
-| RWaitFixed (ridx : list nat)                                   (* fixed mode, fixedSize not yet received *)
+| RWaitFixed (own : nat) (ridx : list nat)                       (* fixed mode, fixedSize not yet received; own: the value the receive
+                                                                    tracker was constructed with in setupInterfaceTrackers (the RECEIVER's
+                                                                    handle.size(...)), which MPI_Irecv(&(iter->fixedSize), ...) overwrites *)
 | RFix (fixed : nat) (rem : list nat) (log : list c06_call)     (* fixed mode, data *)
 | RSz (nleft : nat) (learned : list nat) (ridx : list nat)       (* size phase: SizeDataHandle tracker + sizes_ learned so far *)
 | RVar (rem : list (nat * nat)) (log : list c06_call)           (* variable mode, data *)
@@ -105,14 +107,14 @@ Definition c06_unpack (buf : nat) (m : c06_msg) (r : c06_R) : c06_R :=
       | Some None => RBad 1
       | None => RBad 2
       end
-  | RWaitFixed _ => RBad 1
+  | RWaitFixed _ _ => RBad 1
   | RBad w => RBad w
   end.
 
 (* tracker.finished() / indicesLeft()==0 of the receive tracker that owns the current main-channel request *)
 Definition c06_rfin (r : c06_R) : bool :=
   match r with
-  | RWaitFixed _ => true
+  | RWaitFixed _ _ => true
   | RFix _ [] _ => true
   | RSz 0 _ _ => true
   | RVar [] _ => true
@@ -124,7 +126,7 @@ Definition c06_rfin (r : c06_R) : bool :=
    variable mode: the data tracker gets the learned sizes_; with the fix it is advanced over zero sizes first *)
 Definition c06_rswitch (fixnew : bool) (v : nat) (r : c06_R) : c06_R :=
   match r with
-  | RWaitFixed ridx => RFix v ridx []
+  | RWaitFixed _ ridx => RFix v ridx []           (* tracker.fixedSize is now what the SENDER announced; the own value is gone *)
   | RSz _ learned ridx => let l := combine ridx learned in RVar (if fixnew then c06_skip_zero l else l) []
   | _ => r
   end.
@@ -209,9 +211,11 @@ Definition c06_lstep (buf : nat) (fixnew : bool) (l : c06_link) (e : c06_levent)
   end.
 
 (* initial link states.  entries: what gather produces for the k-th send index; ridx: the receive index list *)
-Definition c06_link_init_fixed (buf src dst fixed : nat) (entries : list (list nat)) (ridx : list nat) : c06_link :=
+Definition c06_link_init_fixed (buf src dst fixed own : nat) (entries : list (list nat)) (ridx : list nat) : c06_link :=
+  (* fixed: tracker.fixedSize of the SEND tracker of src for dst (announced on tag 933881);
+     own:   tracker.fixedSize the RECEIVE tracker of dst for src starts with (dst's own value) *)
   let '(s', q, sent) := c06_send_setup buf (mkS fixed entries []) in
-  mkL src dst s' q true (RWaitFixed ridx) RNull false (FsPending fixed) sent.
+  mkL src dst s' q true (RWaitFixed own ridx) RNull false (FsPending fixed) sent.
 
 Definition c06_link_init_var (buf src dst : nat) (entries : list (list nat)) (ridx : list nat) : c06_link :=
   (* communicateSizes: SizeDataHandle has fixed size 1 and gathers handle.size(i) *)
@@ -356,6 +360,16 @@ Fixpoint c06_fixed_sizes (backward : bool) (sizes : list (list nat)) (cur : nat)
 (* entries of rank p in map (key) order; the case lists them in that order *)
 Definition c06_entries_of (p : nat) (es : list c06_entry) : list c06_entry := filter (fun e => e_p e =? p) es.
 
+(* the fixedsize rank q's setupInterfaceTrackers hands to BOTH trackers of its map entry for neighbour p (send and receive
+   tracker get the same value): the receive tracker of q for p starts with it.  0: q has no such entry *)
+Fixpoint c06_lookup_fixed (p : nat) (l : list (c06_entry * nat)) : nat :=
+  match l with
+  | [] => 0
+  | (e, f) :: t => if e_q e =? p then f else c06_lookup_fixed p t
+  end.
+Definition c06_own_fixed (backward : bool) (sizes : list (list nat)) (es : list c06_entry) (q p : nat) : nat :=
+  let mine := c06_entries_of q es in c06_lookup_fixed p (combine mine (c06_fixed_sizes backward sizes 1 mine)).
+
 Definition c06_links_of_rank (variable backward : bool) (buf ni w : nat) (sizes : list (list nat)) (es : list c06_entry) (p : nat)
   : list (option c06_link) :=
   let mine := c06_entries_of p es in
@@ -369,7 +383,7 @@ Definition c06_links_of_rank (variable backward : bool) (buf ni w : nat) (sizes 
              let ridx := c06_recv_list backward e' in
              let entries := map (fun i => c06_gather ni w p i (c06_size_of sizes p i)) sidx in
              if variable then Some (c06_link_init_var buf p (e_q e) entries ridx)
-             else Some (c06_link_init_fixed buf p (e_q e) f entries ridx)
+             else Some (c06_link_init_fixed buf p (e_q e) f (c06_own_fixed backward sizes es (e_q e) p) entries ridx)
          end) (combine mine fx).
 
 Fixpoint c06_all_some {A} (l : list (option A)) : option (list A) :=
